@@ -6,6 +6,7 @@ import (
 	"fmt"
 	"io"
 	"math"
+	"slices"
 	"strings"
 
 	"github.com/remieven/ysgo/internal/container"
@@ -130,7 +131,7 @@ func (dr *DialogueRunner) Next(choice int) (*DialogueElement, error) {
 			Node: dr.currentNode,
 			Line: &Line{
 				ParseResult: *markupResult,
-				Tags:        nextStatement.LineStatement.Tags,
+				Tags:        slices.Clone(nextStatement.LineStatement.Tags), // the element belongs to the caller
 			},
 		}, nil
 	case nextStatement.ShortcutOptionStatement != nil:
@@ -153,7 +154,7 @@ func (dr *DialogueRunner) Next(choice int) (*DialogueElement, error) {
 			options = append(options, DialogueOption{
 				Line: &Line{
 					ParseResult: *markupResult,
-					Tags:        option.LineStatement.Tags,
+					Tags:        slices.Clone(option.LineStatement.Tags),
 				},
 				Disabled: disabled,
 			})
